@@ -49,6 +49,7 @@ class Verifier(Calls):
         self.st = State()
         self.exit_kinds = {}
         self.no_typing = False
+        self.keepalive = []
         self.assumed_reads = set()
         from .symex import isinstance_any
         self.spec_fns["leaf_isinstance_any"] = isinstance_any
@@ -116,7 +117,7 @@ class Verifier(Calls):
     def assume_typed(self, t, ty):
         """heap reads are typed by the spec's field tags (trusted typing assumption)"""
         kind, arg = parse_tag(ty)
-        key = (str(t), ty)
+        key = (t.get_id(), ty)
         if key in self.assumed_reads:
             return
         fact = None
@@ -144,6 +145,7 @@ class Verifier(Calls):
             fact = Val.is_bytesv(t)
         if fact is not None:
             self.assumed_reads.add(key)
+            self.keepalive.append(t)
             self.assume(fact)
 
     # ------------------------------------------------------------- one target
@@ -180,6 +182,7 @@ class Verifier(Calls):
         self.spec_envs = []
         self.spec_mode = 0
         self.assumed_reads = set()
+        self.keepalive = []
         self.fresh_objs = {}
         self.closures = {}
         self.global_cache = {}
